@@ -16,6 +16,9 @@
 (*   Send(item, pushed, trunc, qlen)  critical section of Sender::send     *)
 (*   TrySend(item, code, qlen)        code 0 ok, 1 full, 2 closed          *)
 (*   SendRet(item, res)               a fallible/blocking send returned    *)
+(*   WaitBudget(first, rel)           a wait inside a blocking call was    *)
+(*                                    given less/equal/more time than the  *)
+(*                                    call's timeout (first) / the last    *)
 (*   FlushReq(w, obs)                 critical section of when_flushed;    *)
 (*                                    obs: its callback is logged (Fired)  *)
 (*   Fired(w)                         a flush callback is being invoked    *)
@@ -128,6 +131,17 @@ TrySend ==
     /\ E.qlen = Len(queue')
     /\ UNCHANGED <<cap, done, trunc, ntrunc, batch, cur, phase, lastRem, attempts, lastWait,
                    reg, fired, closing, senderGone, recvGone, exited, kind, budget, prevMax, ereg, efired>>
+
+(* C08 / C09: a blocking call returns within its timeout: the budget of its first wait does not
+   exceed the call's timeout, and every further wait of the same call gets strictly less than
+   the previous one (time has passed).  The harness compares the durations (they do not fit
+   TLC's integers) and logs the relation. *)
+WaitBudget ==
+    /\ IsEv("WaitBudget")
+    /\ IF E.first THEN E.rel \in {"lt", "eq"} ELSE E.rel = "lt"
+    /\ UNCHANGED <<cap, queue, acc, done, trunc, ntrunc, batch, cur, phase, lastRem, attempts,
+                   lastWait, reg, fired, closing, senderGone, recvGone, exited, kind, budget,
+                   prevMax, ereg, efired>>
 
 (* C09: fallible / blocking sends either enqueued the item or handed it back *)
 SendRet ==
@@ -293,7 +307,7 @@ End ==
                    lastWait, reg, fired, closing, senderGone, recvGone, exited, kind, budget, prevMax, ereg, efired>>
 
 Next ==
-    \/ Reset \/ SendCall \/ Send \/ TrySend \/ EmptyReq \/ EmptyFired \/ SendRet \/ FlushReq \/ Fired \/ FlushRet \/ Take \/ TakeEmpty
+    \/ Reset \/ SendCall \/ WaitBudget \/ Send \/ TrySend \/ EmptyReq \/ EmptyFired \/ SendRet \/ FlushReq \/ Fired \/ FlushRet \/ Take \/ TakeEmpty
     \/ Call \/ Ret \/ Wait \/ Closing \/ Closed \/ Exit \/ End
 
 Spec == Init /\ [][Next]_vars
